@@ -38,6 +38,56 @@ CHECKS = {
    note=BASE_NOTE + 'Model of the guards is hand-written; it is compared with the implementation on all cells; theorems are closed under the global context (no axioms).',
    technique='Coq decision-table model, finite-domain proof by computation + exhaustive execution of the request grid',
    design='DESIGN.md §3 C20'),
+ 'C03': dict(
+   text=('Theorems (mathcomp, any field, any size, any data matrix) over terms REGENERATED from the current source by '
+         'tools/translate/matrix_expr.py (symbolic execution of daun_transform, basex _get_A/get_bs_cached/basex_core_transform, '
+         'rbasex get_bs_cached): daun round trip for degrees 0-3 in both composition orders and any dr, basex (sigma=1, reg=0, '
+         'no correction) and rbasex per order likewise; triangular matrices with non-zero diagonal are exactly the invertible '
+         'ones. Tie: regeneration + numeric validation of every generated term against the running implementation. Search: '
+         'random signed half-images n=3..200, cond-scaled tolerance. The approximate class (hansenlaw, direct, corrected basex) '
+         'is swept against calibrated envelopes only (not a theorem).'),
+   note=BASE_NOTE + 'scipy inv/solve_triangular modelled by specification (multiplication by invmx); float conditioning outside the theorem; approximate-class envelope clause swept numerically.',
+   technique='Coq/mathcomp proof over source-regenerated matrix expressions + numeric translation validation + round-trip search',
+   design='DESIGN.md §3 C03'),
+ 'C04': dict(
+   text=('Theorems: every regenerated daun/basex/dasch/rbasex transform is X *m A (row-wise, linear, row-independent); dr scaling '
+         'from the regenerated Jacobian sites (daun incl. Tikhonov, basex, dasch, onion_bordas; direct partial); Hansen-Law '
+         'recursion linear, row-wise and dr-scaling by induction over columns for arbitrary coefficient tables; NNLS solvers '
+         'positively homogeneous (solver by specification); symmetrisation linear (over the C06 model). Tie: translators + '
+         'numeric validation of generated terms + vm_compute runs of the Hansen-Law model against the implementation. Search: '
+         'operator extraction on the implementation for all ten methods and the image tools (linearity with negative '
+         'coefficients, row independence, dr).'),
+   note=BASE_NOTE + 'Linearity of direct, onion_bordas, linbasex, rbasex image synthesis, set_center, radial_intensity, Distributions is checked on the implementation only; scipy.ndimage interpolation assumed linear; Hansen-Law Q instance rounds to 120 bits.',
+   technique='Coq proofs (mathcomp + induction) over regenerated expressions + operator extraction on implementation',
+   design='DESIGN.md §3 C04'),
+ 'C17': dict(
+   text=('Theorems over regenerated expressions: Tikhonov with zero strength equals the plain inverse (daun diff/L2/L2c, rbasex, basex '
+         'reg=0); daun reg=0/None take the same path for all degrees; daun default equals onion_peeling given W = B^T, and the '
+         'entry identity W[i][j] = daun0[j][i] over R; NNLS returns the unconstrained solution when it is feasible (solver by '
+         'specification) and is unique; dasch wrappers pass arguments unchanged. Search: 37 paired option sets on random '
+         'half-images (sizes 3..120), wrappers and deprecated aliases.'),
+   note=BASE_NOTE + '"Alternatives agree within their envelopes" (hold_order, degree, backend) is numeric only; the C backend of direct is not built in this sandbox.',
+   technique='Coq/mathcomp proofs over regenerated expressions + paired-option search on implementation',
+   design='DESIGN.md §3 C17'),
+ 'C18': dict(
+   text=('Theorems: soundness of an executable may-alias checker for a small buffer language (every execution of a program the '
+         'checker accepts leaves every argument buffer unchanged and returns no cache-held buffer), and by vm_compute that the '
+         'checker accepts the abstract programs REGENERATED from the current source for 95 public callables (named exceptions '
+         'listed), with call summaries re-checked in Coq. Tie: fail-closed AST translator + static-vs-dynamic agreement. Search: '
+         'dynamic harness on every public callable (dtypes, strided/read-only arguments, repeat, NaN-poisoned np.empty, '
+         'result mutation, fresh-process repeats).'),
+   note=BASE_NOTE + 'numpy/scipy aliasing summaries are a committed trusted table; interprocedural composition not formalised; 3 callables dynamic only.',
+   technique='Coq soundness proof of an alias analysis + regenerated abstract programs checked by vm_compute + dynamic harness',
+   design='DESIGN.md §3 C18'),
+ 'C19': dict(
+   text=('Theorems (Reals/Coquelicot) over formulas REGENERATED from polar.py, vmi.py, circularize.py: cart<->polar round trips, '
+         'angle convention, index_coords origin, reprojection sampling positions, int2D = 2 pi r avg2D and int3D = 4 pi r^2 avg3D, '
+         'toPES Jacobian identity, circularize with constant correction is the identity map. Tie: translation validation by '
+         'per-instance interval goals (machine-checked, regenerated each run) + captured map_coordinates coordinates vs model. '
+         'Search: round trips, relations between the four kinds, isotropic profiles, intensity conservation, toPES, circularize.'),
+   note=BASE_NOTE + 'Spline interpolation and Riemann-sum accuracy clauses are swept with documented tolerances (theta-grid deficit treated as discretisation tolerance); one recorded finding (circularize border).',
+   technique='Coq real-analysis proofs over regenerated formulas + interval-arithmetic translation validation + search',
+   design='DESIGN.md §3 C19'),
 }
 
 NOT_YET = 'check not built yet (work in progress; see DESIGN.md section 3)'
